@@ -287,22 +287,31 @@ package utreexo
 //@   requires numLeaves <= pow2(63)
 //@   requires delHashes == nil || len(delHashes) == len(proof.Targets)
 //@   ensures err == nil ==> len(hp.positions) == len(hp.hashes)
-//@   loop 1: invariant 0 <= toProveIdx && toProveIdx <= len(toProve.positions) && len(toProve.positions) == len(toProve.hashes)
-//@   loop 1: invariant 0 <= nextProvesIdx && nextProvesIdx <= len(nextProves.positions) && len(nextProves.positions) == len(nextProves.hashes)
-//@   loop 1: invariant 0 <= proofHashIdx
-//@   loop 2: invariant row <= totalRows
-//@   loop 2: decreases int(totalRows) + 1 - int(row)
+
+//@ func calculateHashesAndRootPositions(numLeaves uint64, delHashes []Hash, proof Proof) (hp hashAndPos, roots []Hash, rootPos []uint64, err error)
+//@   requires numLeaves <= pow2(63)
+//@   requires delHashes == nil || len(delHashes) == len(proof.Targets)
+//@   ensures err == nil ==> len(hp.positions) == len(hp.hashes)
+//@   ensures len(roots) == len(rootPos)
+//@   loop 1: invariant 1 <= i
+//@   loop 1: decreases len(toProve.positions) - i
+//@   loop 2: invariant 0 <= toProveIdx && toProveIdx <= len(toProve.positions) && len(toProve.positions) == len(toProve.hashes)
+//@   loop 2: invariant 0 <= nextProvesIdx && nextProvesIdx <= len(nextProves.positions) && len(nextProves.positions) == len(nextProves.hashes)
+//@   loop 2: invariant 0 <= proofHashIdx && len(calculatedRootHashes) == len(calculatedRootPositions)
+//@   loop 3: invariant row <= totalRows
+//@   loop 3: decreases int(totalRows) + 1 - int(row)
 
 //@ func Verify(stump Stump, delHashes []Hash, proof Proof) (idx []int, err error)
 //@   requires stump.NumLeaves <= pow2(63)
-//@   ghost rootCandidates
+//@   ghost rootCandidates, candidatePositions, rootPositions
 //@   ensures err == nil ==> len(delHashes) == len(proof.Targets)
 //@   ensures err == nil ==> len(idx) == len(rootCandidates)
 //@   ensures err == nil ==> forall k in 0..len(idx): 0 <= idx[k] && idx[k] < len(stump.Roots)
-//@   ensures err == nil ==> forall k in 0..len(idx): stump.Roots[idx[k]] == rootCandidates[k]
+//@   ensures err == nil ==> forall k in 0..len(idx): stump.Roots[idx[k]] == rootCandidates[k] && idx[k] < len(rootPositions) && rootPositions[idx[k]] == candidatePositions[k]
 //@   ensures err == nil ==> forall k in 1..len(idx): idx[k-1] > idx[k]
-//@   loop 1: invariant len(rootIndexes) <= len(rootCandidates) && len(rootIndexes) <= i
+//@   loop 1: invariant len(rootIndexes) <= len(rootCandidates) && len(rootIndexes) <= i && len(candidatePositions) == len(rootCandidates)
 //@   loop 1: invariant forall k in 0..len(rootIndexes): len(stump.Roots) - i <= rootIndexes[k] && rootIndexes[k] < len(stump.Roots) && stump.Roots[rootIndexes[k]] == rootCandidates[k]
+//@   loop 1: invariant forall k in 0..len(rootIndexes): rootIndexes[k] < len(rootPositions) && rootPositions[rootIndexes[k]] == candidatePositions[k]
 //@   loop 1: invariant forall k in 1..len(rootIndexes): rootIndexes[k-1] > rootIndexes[k]
 
 //@ func (s *Stump) del(delHashes []Hash, proof Proof) (hashes []Hash, positions []uint64, err error)
@@ -362,7 +371,7 @@ package utreexo
 //@   requires forall k in 0..len(p.Roots): p.Roots[k] != nil
 //@   ghost rootCandidates, rootMatches
 //@   ensures err == nil && len(delHashes) != 0 ==> len(delHashes) == len(proof.Targets) && rootMatches == len(rootCandidates) && len(rootCandidates) > 0
-//@   loop 1: invariant 0 <= rootMatches && rootMatches <= len(rootCandidates) && rootMatches <= i
+//@   loop 1: invariant 0 <= rootMatches && rootMatches <= len(rootCandidates) && rootMatches <= i && len(candidatePositions) == len(rootCandidates)
 //@   loop 2: invariant len(rootHashes) == len(p.Roots)
 
 //@ func (m *MapPollard) getRoots() (roots []Hash, positions []uint64)
